@@ -46,6 +46,14 @@ Theorem C06_split_keeps_the_function :
     aget nb (fbb s') = if bkind_eqb (bk (the_blk s b)) KCode then aget b (fbb s) else None.
 Proof. exact split_block_same_function. Qed.
 
+(* entries when a code block is taken out of its function: the block is no longer an entry; the block behind it becomes one exactly
+   when the removed block was an entry and that next block is code of the same function; every other entry stays *)
+Theorem C06_entry_promotion :
+  forall s b nx f, FInv s -> is_code s b = true -> aget b (fbb s) = Some f ->
+    forall x, In x (flist (fentries (update_functions_aux_data s b nx)) f) <->
+              x <> b /\ (In x (flist (fentries s) f) \/ promotes s b nx f x).
+Proof. exact entries_after_removal. Qed.
+
 (* non-vacuity: a one-function state satisfies the invariant, and an insertion into it succeeds *)
 Definition ex_patch : patch := mk_patch [144] [(200%nat, KCode, 0, 1)] [] [] [] [] [] [] [] [].
 Definition ex_state : st :=
